@@ -7,6 +7,7 @@ INVARIANT InvStepMax
 INVARIANT InvBounds
 INVARIANT InvLimitsStep
 INVARIANT InvCompSane
+INVARIANT InvSupport
 INVARIANT InvCompNormalised
 INVARIANT InvConserved
 INVARIANT InvRemoveKeeps
